@@ -142,7 +142,7 @@ def showEnv (env : Env) : String :=
 def showOutcome : Outcome → String
   | .ok => "ok"
   | .raised .msgError => "raised msgError"
-  | .raised .assertion => "raised assertion"
+  | .raised .foreign => "raised foreign"
 
 def handle (st : St) (cmd : String) (args : List String) : St × String :=
   match cmd, args with
